@@ -176,8 +176,8 @@ def execute(sc, choices=None, lenient=False):
             real_schedule = sched.schedule_consumption
             real_process = sched.process_scheduled_consumption
 
-            def schedule(amt, token, time_to_consume):
-                w = real_schedule(amt, token, time_to_consume)
+            def schedule(amt, token, time_to_consume, *a, **k):
+                w = real_schedule(amt, token, time_to_consume, *a, **k)
                 info['scheduled'] += 1
                 # a waiting read counts until the library had every chance to
                 # withdraw it: while its transfer is healthy, or while the
@@ -202,14 +202,14 @@ def execute(sc, choices=None, lenient=False):
                 ledger[token] = (amt, tok_stream.get(id(token), -1))
                 return w
 
-            def process(token):
+            def process(token, *a, **k):
                 ledger.pop(token, None)
-                return real_process(token)
+                return real_process(token, *a, **k)
             sched.schedule_consumption = schedule
             sched.process_scheduled_consumption = process
             real_consume = bucket.consume
 
-            def consume(amt, token):
+            def consume(amt, token, *a, **k):
                 c = ctx.get(sim.current.tid)
                 if c is not None:
                     c['consume_begin'] = sim.stamp()
@@ -219,7 +219,7 @@ def execute(sc, choices=None, lenient=False):
                     # point inside consume() while time and the others go on
                     sim.stall_at_next_point(c.pop('stall'))
                     info['stalls'] += 1
-                return real_consume(amt, token)
+                return real_consume(amt, token, *a, **k)
             bucket.consume = consume
 
             def run_stream(si, st):
